@@ -1010,6 +1010,25 @@ func (c *Ctx) evalLoc(env *Env, e Expr) []Loc {
 			}
 			return out
 		}
+		if x.Fun == "chanstate" && len(x.Args) == 1 {
+			// the state (head, tail, capacity, closed flag, buffer) of one channel
+			cv := env.eval(x.Args[0])
+			ch, ok := cv.T.Underlying().(*types.Chan)
+			if !ok || len(cv.L) != 1 {
+				c.fail("modifies: chanstate() needs a channel")
+			}
+			ref := cv.L[0]
+			in := func(r string) string { return tEq(r, ref) }
+			var keys []Leaf
+			for _, k := range []string{"CH|head", "CH|tail", "CH|cap"} {
+				keys = append(keys, Leaf{k, bvSort(64), nil})
+			}
+			keys = append(keys, Leaf{"CH|closed", SBool, nil})
+			for _, l := range c.chanBufKeys(ch.Elem()) {
+				keys = append(keys, Leaf{l.Path, arrSort(bvSort(64), l.Sort), nil})
+			}
+			return []Loc{{Kind: "fieldset", Keys: keys, In: in}}
+		}
 		if x.Fun == "chans" && len(x.Args) == 1 {
 			// every channel stored as a value of the given map
 			mv := env.eval(x.Args[0])
@@ -1674,6 +1693,17 @@ func (c *Ctx) locWrites(e Expr, tenv map[string]types.Type, pkg *types.Package, 
 	case *ECall:
 		if x.Fun == "whole" && len(x.Args) == 1 {
 			c.locWrites(x.Args[0], tenv, pkg, out)
+			return
+		}
+		if x.Fun == "chanstate" && len(x.Args) == 1 {
+			c.wsChan(out)
+			if ct := c.specType(x.Args[0], tenv, pkg); ct != nil {
+				if ch, ok := ct.Underlying().(*types.Chan); ok {
+					for _, l := range c.chanBufKeys(ch.Elem()) {
+						out.comps[l.Path] = arrSort(SRef, arrSort(bvSort(64), l.Sort))
+					}
+				}
+			}
 			return
 		}
 		if x.Fun == "chans" && len(x.Args) == 1 {
